@@ -355,6 +355,16 @@ def decide(pid, pc, tier, seed, work, t0, finder_driver):
             print('VIOLATION property=%s replay=%s obligation=%s no-failing-input-found' % (pid, rp, f['label']))
         rc = 1
     printed = set()
+    # property-specific extra checks on the real tree (not Verus): C19 script.ds scan
+    extra_info = None
+    if pc.get('extra') == 'scan_scripts':
+        import scan_scripts
+        extra_info = scan_scripts.scan(REPO)
+        if extra_info['violations']:
+            rp = os.path.join(VERIF, 'replay', pid, 'script_scan.json')
+            json.dump(dict(property=pid, obligation='script.ds assignment targets lie under the command scope prefix', violations=extra_info['violations'], tree_sha=sha), open(rp, 'w'), indent=1)
+            print('VIOLATION property=%s replay=%s obligation=script-scan' % (pid, rp))
+            rc = 1
     for (f, k) in known_hit:
         print('KNOWN-FINDING: property=%s %s: %s' % (pid, f['label'], k['what']))
         printed.add(id(k))
@@ -381,6 +391,8 @@ def decide(pid, pc, tier, seed, work, t0, finder_driver):
             print('VIOLATION property=%s replay=%s obligation=finder-only' % (pid, rp))
             rc = 1
     ev = evidence(pid, pc, tier, seed, t0, mine, discharged, functions, results, smt_ms, verified, failures, undecided, known_hit, new_viol, funcs_time, sha)
+    if extra_info is not None:
+        ev['coverage']['script_scan'] = dict(files=extra_info['files'], assignments=extra_info['assignments'], violations=len(extra_info['violations']))
     if sampled is not None:
         ev['coverage']['finder_sampled'] = {k: sampled.get(k) for k in ('evaluations', 'found', 'domain') if sampled}
     write_evidence(pid, ev)
